@@ -7,6 +7,8 @@ import random
 import sys
 
 from bounded.harness import emit, new_ctx, payload, quiet_stdout
+from bounded.harness import install_watchdog
+install_watchdog()
 
 P = payload()
 tier = P.get("tier", "quick")
@@ -314,6 +316,20 @@ for txt, want_calls in (("{{#switch:q|a=1|{{a|s}}}}", [("a", {1: "s"})]), ("{{#s
              f"{txt!r}: calls {calls} want {want_calls}", {"page": txt}, "hook-calls")
     if txt == "{{id0|0=z}}" and out != "<z>":
         fail("core:Wtp.expand#equals-reference-selective-expansion", f"{txt!r} -> {out!r} want '<z>'", {"page": txt})
+# selection looks the template up like a call does: first letter case-insensitive, the rest exact
+ctx.add_page("Template:LangHdr", 10, "<{{{1|}}}>", need_pre_expand=True)
+ctx.add_page("Template:En-IPA", 10, "[{{{1|}}}]")
+for txt, kw_, want in (("{{langHdr|x}}", dict(pre_expand=True), "<x>"), ("{{en-IPA|y}}", dict(pre_expand=True, templates_to_expand={"en-IPA"}), "[y]"),
+                       ("{{en-ipa|y}}", dict(pre_expand=True, templates_to_expand={"en-ipa"}), "{{en-ipa|y}}"),
+                       ("{{LangHdr|z}} {{langhdr|w}}", dict(pre_expand=True), "<z> {{langhdr|w}}")):
+    calls = []
+    ctx.start_page("Tt")
+    with quiet_stdout():
+        out = ctx.expand(txt, template_fn=lambda n, ht: calls.append(n), **kw_)
+    evaluations += 1
+    if out != want:
+        fail("core:Wtp.expand#equals-reference-selective-expansion", f"{txt!r} {kw_} -> {out!r} want {want!r} (hook calls {calls})",
+             {"page": txt, "options": {k: (sorted(v) if isinstance(v, set) else v) for k, v in kw_.items()}}, "name-lookup")
 # a disabled parser function is re-emitted with its first argument as written
 for txt in ("{{#if: x |a|b}}", "{{#if:x |a}}", "{{lc: X }}"):
     ctx.start_page("Tt")
